@@ -238,32 +238,86 @@ pub fn finish(ctx: &Ctx, report: Report, mut ev: Evidence) -> i32 {
     }
 }
 
-/// Run `f`, converting a panic into `Err(message)`. Used around every call into the subject.
-pub fn catch<R>(f: impl FnOnce() -> R) -> Result<R, String> {
+thread_local! {
+    static LAST_PANIC: std::cell::RefCell<Option<(String, u32, String)>> = const { std::cell::RefCell::new(None) };
+}
+
+/// A panic observed inside the subject.
+#[derive(Clone, Debug)]
+pub struct Panic {
+    pub file: String,
+    pub line: u32,
+    pub msg: String,
+}
+
+impl Panic {
+    /// Stable class for signatures: kind of panic + source file (no line numbers: they move).
+    pub fn class(&self) -> String {
+        let f = self.file.rsplit("rs-matter/src/").next().unwrap_or(&self.file);
+        format!("{}@{}", panic_class(&self.msg), f)
+    }
+}
+
+impl std::fmt::Display for Panic {
+    fn fmt(&self, f: &mut std::fmt::Formatter<'_>) -> std::fmt::Result {
+        write!(f, "panic at {}:{}: {}", self.file, self.line, self.msg)
+    }
+}
+
+/// Run `f`, converting a panic into `Err(Panic)`. Used around every call into the subject.
+pub fn catch<R>(f: impl FnOnce() -> R) -> Result<R, Panic> {
     match std::panic::catch_unwind(std::panic::AssertUnwindSafe(f)) {
         Ok(r) => Ok(r),
         Err(e) => {
-            let msg = if let Some(s) = e.downcast_ref::<&str>() {
+            let payload = if let Some(s) = e.downcast_ref::<&str>() {
                 s.to_string()
             } else if let Some(s) = e.downcast_ref::<String>() {
                 s.clone()
             } else {
                 "panic".to_string()
             };
-            Err(msg)
+            let (file, line, msg) = LAST_PANIC
+                .with(|l| l.borrow_mut().take())
+                .unwrap_or_else(|| ("?".into(), 0, payload.clone()));
+            Err(Panic { file, line, msg })
         }
     }
 }
 
-/// Silence the default panic hook (panics are observations here), but keep the message
-/// available through `catch`.
+/// Silence the default panic hook (panics are observations here) and record location + message.
 pub fn quiet_panics() {
-    std::panic::set_hook(Box::new(|_| {}));
+    std::panic::set_hook(Box::new(|info| {
+        let (file, line) = info
+            .location()
+            .map(|l| (l.file().to_string(), l.line()))
+            .unwrap_or(("?".into(), 0));
+        let msg = if let Some(s) = info.payload().downcast_ref::<&str>() {
+            s.to_string()
+        } else if let Some(s) = info.payload().downcast_ref::<String>() {
+            s.clone()
+        } else {
+            "panic".to_string()
+        };
+        if std::env::var_os("MC_SHOW_PANICS").is_some() {
+            eprintln!("panic at {}:{}: {}", file, line, msg);
+        }
+        LAST_PANIC.with(|l| *l.borrow_mut() = Some((file, line, msg)));
+    }));
 }
 
 /// Classify a panic message into a stable short class for signatures.
 pub fn panic_class(msg: &str) -> &'static str {
-    if msg.contains("overflow") {
+    if msg.contains("add with overflow") {
+        "add-overflow"
+    } else if msg.contains("subtract with overflow") {
+        "sub-overflow"
+    } else if msg.contains("multiply with overflow") {
+        "mul-overflow"
+    } else if msg.contains("shift") && msg.contains("overflow") {
+        "shift-overflow"
+    } else if msg.contains("divide by zero") || msg.contains("remainder with a divisor of zero") {
+        "div-by-zero"
+    } else if msg.contains("overflow") {
         "arith-overflow"
     } else if msg.contains("out of range") || msg.contains("out of bounds") || msg.contains("index") {
         "oob"
